@@ -20,7 +20,9 @@ import (
 	"fmt"
 	"math"
 	"math/big"
+	"reflect"
 	"strings"
+	"sync"
 
 	"github.com/tuneinsight/lattigo/v6/core/rlwe"
 	"github.com/tuneinsight/lattigo/v6/multiparty"
@@ -79,6 +81,14 @@ func c14GSnap(params rlwe.Parameters, g *rlwe.GadgetCiphertext) string {
 
 func c14B(params rlwe.Parameters) int64 {
 	return int64(math.Ceil(params.Xe().(ring.DiscreteGaussian).Bound)) + 1
+}
+
+// c14Bs bounds the coefficients of a secret drawn from the declared Xs (1 for ternary secrets).
+func c14Bs(params rlwe.Parameters) int64 {
+	if g, ok := params.Xs().(ring.DiscreteGaussian); ok {
+		return int64(math.Ceil(g.Bound)) + 1
+	}
+	return 1
 }
 
 // c14Norm returns the infinity norm of the centred coefficients of p (NTT domain if ntt).
@@ -149,12 +159,13 @@ func c14KSBound(set c14Set, cfg c14Evk, shape []int, n int, rlk bool) *big.Int {
 	sumD, P := c14SumD(set, cfg, shape)
 	d := int64(set.n)
 	B := c14B(set.params)
+	h := d * c14Bs(set.params) // ‖s_i‖₁ ≤ h (= d for ternary secrets)
 	t := new(big.Int).Mul(sumD, big.NewInt(d*B*int64(n)))
 	if rlk {
-		t.Mul(t, big.NewInt(2*d*int64(n)+1))
+		t.Mul(t, big.NewInt(2*h*int64(n)+1))
 	}
 	t.Div(t, P)
-	t.Add(t, big.NewInt(int64(n)*(d+1)+1))
+	t.Add(t, big.NewInt(int64(n)*(h+1)+1))
 	return t
 }
 
@@ -224,7 +235,8 @@ func c14ProbePK(c *Ctx, set c14Set, n int, keys c14Keys, pk *rlwe.PublicKey) {
 	params := set.params
 	lvl := set.maxQ()
 	d, B := int64(set.n), c14B(params)
-	bound := big.NewInt(int64(n) * (2*d*B + B + d + 1))
+	h := d * c14Bs(params)
+	bound := big.NewInt(int64(n) * (2*h*B + B + h + 1))
 	detail := Try(func() string {
 		pt := c14RandPt(c, params, lvl)
 		ct := rlwe.NewCiphertext(params, 1, lvl)
@@ -495,6 +507,233 @@ func c14CRSTie(c *Ctx, set c14Set) {
 	_, _ = twin.Read(stream)
 	c.Emit("crs "+I(set.nRing)+" "+I(len(reqs))+" "+strings.Join(reqs, " ")+" "+Hex(stream), strings.Join(polys, "|")+" "+U(nx))
 	c.Count("crs_tie")
+}
+
+// ---------------------------------------------------------------------------------------------
+// noise of the collective public key against the DECLARED error distribution
+
+type c14NoiseStat struct {
+	n     int
+	sumSq float64
+	sigma float64
+}
+
+var c14CPKStats = map[string]*c14NoiseStat{}
+
+// c14CPKNoise: (a) the error of the collective public key, phase(pk, Σ s_i) = Σ e_i, is at most N·⌈Xe.Bound⌉ — N times the
+// single-party bound implied by the declared Xe; (b) the error found in every party's real share (share + s_i·a) is pooled,
+// separately for protocol instances obtained by ShallowCopy, for the two-sided statistical test of c14CPKNoiseProbes.
+func c14CPKNoise(c *Ctx, set c14Set, n int, keys c14Keys, pk *rlwe.PublicKey, shares []multiparty.PublicKeyGenShare, crp multiparty.PublicKeyGenCRP, isCopy []bool) {
+	params := set.params
+	r := params.RingQ()
+	xe := params.Xe().(ring.DiscreteGaussian)
+	resid := func(b, a ring.Poly, sk *rlwe.SecretKey) ring.Poly {
+		// stored words: b = e·R − s·a (NTT), sk in Montgomery form: e·R = b + MRed(sk, a)
+		t := r.NewPoly()
+		r.MulCoeffsMontgomery(sk.Value.Q, a, t)
+		r.Add(t, b, t)
+		r.IMForm(t, t)
+		return t
+	}
+	bound := big.NewInt(int64(n) * int64(math.Ceil(xe.Bound)))
+	detail := ""
+	if e := c14Norm(r, resid(pk.Value[0].Q, pk.Value[1].Q, keys.ideal), true); e.Cmp(bound) > 0 {
+		detail = fmt.Sprintf("key_error=%s>N*ceil(Xe.Bound)=%s", e, bound)
+	}
+	c.Probe("collective_key_noise", fmt.Sprintf("cpk set=%s N=%d Xe.sigma=%g Xe.bound=%g", set.name, n, xe.Sigma, xe.Bound), "C14-cpk-declared-noise", detail)
+	for i := range shares {
+		key := fmt.Sprintf("cpk_share set=%s ctor=%s", set.name, map[bool]string{false: "new", true: "copy"}[isCopy[i]])
+		st := c14CPKStats[key]
+		if st == nil {
+			st = &c14NoiseStat{sigma: xe.Sigma}
+			c14CPKStats[key] = st
+		}
+		for _, x := range c14Signed(r, resid(shares[i].Value.Q, crp.Value.Q, keys.sk[i]), true, false) {
+			if set.params.RingType() == ring.ConjugateInvariant {
+				// (unfolded representation repeats every coefficient with both signs: same second moment)
+			}
+			st.n++
+			st.sumSq += float64(x) * float64(x)
+		}
+	}
+}
+
+// c14CPKNoiseProbes (statistical, labelled): pooled standard deviation of the errors in the real shares within five standard
+// errors (+2% for the truncation at Xe.Bound) of the declared σ, on both sides.
+func c14CPKNoiseProbes(c *Ctx) {
+	keys := make([]string, 0, len(c14CPKStats))
+	for k := range c14CPKStats {
+		keys = append(keys, k)
+	}
+	sortStrings(keys)
+	for _, k := range keys {
+		st := c14CPKStats[k]
+		std := math.Sqrt(st.sumSq / float64(st.n))
+		tol := 5/math.Sqrt(2*float64(st.n)) + 0.02
+		detail := ""
+		// a Gaussian truncated at Bound = 2σ has standard deviation 0.88σ: the lower side allows for the truncation
+		lo := st.sigma * (1 - tol)
+		if k2 := c14TruncFactor(k); k2 < 1 {
+			lo *= k2
+		}
+		if std < lo {
+			detail = fmt.Sprintf("std=%.3f<declared=%.3f", std, st.sigma)
+		} else if std > st.sigma*(1+tol) {
+			detail = fmt.Sprintf("std=%.3f>declared=%.3f", std, st.sigma)
+		}
+		c.Probe("share_noise_matches_Xe", fmt.Sprintf("%s samples=%d std_milli=%d sigma_milli=%d tol_ppm=%d statistical", strings.ReplaceAll(k, " ", "_"), st.n, int(std*1000), int(st.sigma*1000), int(tol*1e6)),
+			"C14-cpk-declared-noise", detail)
+	}
+	c14CPKStats = map[string]*c14NoiseStat{}
+}
+
+// sets whose Xe is truncated at two standard deviations (discrete values −2…2): std ≈ 0.85σ
+func c14TruncFactor(key string) float64 {
+	if strings.Contains(key, "narrowXe") || strings.Contains(key, "NarrowXe") {
+		return 0.75
+	}
+	return 1
+}
+
+// ---------------------------------------------------------------------------------------------
+// ShallowCopy: no scratch buffer shared between an instance and its copy
+
+// c14Buffers collects the addresses of the mutable buffers reachable from v: the rows of every ring.Poly and every *big.Int
+// (polynomial scratch space, masks).  Read-only tables are not followed: parameters, rings, encoders' tables, samplers (their
+// buffers are private to the sampler and replaced together with it), the zero secret key (`zero`, never written).
+func c14Buffers(v reflect.Value, path string, out map[uintptr]string, seen map[uintptr]bool, depth int) {
+	if depth > 12 {
+		return
+	}
+	switch v.Kind() {
+	case reflect.Ptr, reflect.Interface:
+		if v.IsNil() {
+			return
+		}
+		if v.Kind() == reflect.Ptr {
+			if v.Type() == reflect.TypeOf((*big.Int)(nil)) {
+				out[v.Pointer()] = path
+				return
+			}
+			if seen[v.Pointer()] {
+				return
+			}
+			seen[v.Pointer()] = true
+		}
+		c14Buffers(v.Elem(), path, out, seen, depth+1)
+	case reflect.Struct:
+		name := v.Type().Name()
+		switch {
+		case strings.HasSuffix(name, "Parameters"), name == "Ring", name == "SubRing", name == "BasisExtender",
+			name == "Encoder", strings.HasSuffix(name, "Sampler"), name == "KeyedPRNG":
+			return
+		}
+		if v.Type() == reflect.TypeOf(ring.Poly{}) {
+			co := v.FieldByName("Coeffs")
+			for i := 0; i < co.Len(); i++ {
+				if co.Index(i).Len() > 0 {
+					out[co.Index(i).Pointer()] = fmt.Sprintf("%s.Coeffs[%d]", path, i)
+				}
+			}
+			return
+		}
+		for i := 0; i < v.NumField(); i++ {
+			f := v.Type().Field(i)
+			if f.Name == "zero" || f.Name == "defaultScale" {
+				continue // read-only after construction
+			}
+			c14Buffers(v.Field(i), path+"."+f.Name, out, seen, depth+1)
+		}
+	case reflect.Slice, reflect.Array:
+		if v.Kind() == reflect.Slice && v.IsNil() {
+			return
+		}
+		k := v.Type().Elem().Kind()
+		if k == reflect.Uint64 || k == reflect.Uint8 || k == reflect.Float64 || k == reflect.Int {
+			return
+		}
+		for i := 0; i < v.Len() && i < 4096; i++ {
+			c14Buffers(v.Index(i), fmt.Sprintf("%s[%d]", path, i), out, seen, depth+1)
+		}
+	}
+}
+
+// c14SharedScratch: the buffers of an instance and of its ShallowCopy must be disjoint.
+func c14SharedScratch(c *Ctx, prop, name string, orig, cp interface{}) {
+	a, b := map[uintptr]string{}, map[uintptr]string{}
+	c14Buffers(reflect.ValueOf(orig), name, a, map[uintptr]bool{}, 0)
+	c14Buffers(reflect.ValueOf(cp), name, b, map[uintptr]bool{}, 0)
+	detail := ""
+	for p, where := range a {
+		if w2, ok := b[p]; ok {
+			detail = "buffer_shared_with_the_copy:" + where + "=" + w2
+			break
+		}
+	}
+	c.Probe("no_shared_scratch", fmt.Sprintf("%s buffers=%d/%d", name, len(a), len(b)), prop+"/"+name+".ShallowCopy/shared-scratch", detail)
+}
+
+func c14ScratchAll(c *Ctx, set c14Set) {
+	params := set.params
+	ckg := multiparty.NewPublicKeyGenProtocol(params)
+	c14SharedScratch(c, "C14", "PublicKeyGenProtocol", ckg, ckg.ShallowCopy())
+	evkg := multiparty.NewEvaluationKeyGenProtocol(params)
+	c14SharedScratch(c, "C14", "EvaluationKeyGenProtocol", evkg, evkg.ShallowCopy())
+	gkg := multiparty.NewGaloisKeyGenProtocol(params)
+	gcp := gkg.ShallowCopy()
+	c14SharedScratch(c, "C14", "GaloisKeyGenProtocol", gkg, gcp)
+	c14SharedScratch(c, "C14", "GaloisKeyGenProtocol(copy_of_copy)", gcp, gcp.ShallowCopy())
+	rkg := multiparty.NewRelinearizationKeyGenProtocol(params)
+	c14SharedScratch(c, "C14", "RelinearizationKeyGenProtocol", rkg, rkg.ShallowCopy())
+}
+
+// c14ConcurrentGalois: the parties' GenShare run in goroutines, every party on its own ShallowCopy (a copy of the previous
+// party's instance), released together by a barrier; the collective Galois key must work.  Ring degree 2^10 (no tie: the
+// model is not executed at this size), so that the calls overlap.
+func c14ConcurrentGalois(c *Ctx) {
+	set := c14NewSet("conc", 10, []int{50, 50}, []int{55})
+	params := set.params
+	reps := c.Scale(3, 20)
+	for rep := 0; rep < reps; rep++ {
+		n := 8
+		keys := c14GenKeys(set, n)
+		_, crs := c14CRS(c)
+		cfg := c14Evk{set.maxQ(), set.maxP(), 0}
+		galEl := params.GaloisElement(1 + rep)
+		protos := make([]multiparty.GaloisKeyGenProtocol, n)
+		protos[0] = multiparty.NewGaloisKeyGenProtocol(params)
+		for i := 1; i < n; i++ {
+			protos[i] = protos[c.rng.Intn(i)].ShallowCopy()
+		}
+		crp := protos[0].SampleCRP(crs, cfg.params())
+		shares := make([]multiparty.GaloisKeyGenShare, n)
+		for i := range shares {
+			shares[i] = protos[i].AllocateShare(cfg.params())
+		}
+		start := make(chan struct{})
+		var wg sync.WaitGroup
+		for i := range shares {
+			wg.Add(1)
+			go func(i int) {
+				defer wg.Done()
+				<-start
+				for k := 0; k < 4; k++ { // the last of several overlapping calls is kept
+					_ = protos[i].GenShare(keys.sk[i], galEl, crp, &shares[i])
+				}
+			}(i)
+		}
+		close(start)
+		wg.Wait()
+		agg := shares[0]
+		for i := 1; i < n; i++ {
+			_ = protos[0].AggregateShares(agg, shares[i], &agg)
+		}
+		gk := rlwe.NewGaloisKey(params, cfg.params())
+		_ = protos[0].GenGaloisKey(agg, crp, gk)
+		c14ProbeTag = " concurrent_GenShare_on_ShallowCopies"
+		c14ProbeGAL(c, set, n, cfg, keys, galEl, gk, false)
+		c14ProbeTag = ""
+	}
 }
 
 // c14CRSShared: the CRS-sharing workflow.  Party 0 creates the CRS with sampling.NewPRNG() and ships crs.Key(); every
